@@ -191,10 +191,16 @@ class ScriptedMixin:
         self.program = settings.get("program", [0])
         self.mine = []
         self.n_consult = 0
+        # a user-written agent that is a container (of the fills it was told about, say) and is EMPTY, hence falsy,
+        # all along: `if agent:` is not `if agent is not None:`
+        self._vf_len = 0 if settings.get("falsy") else 1
         if settings.get("rebind_holdings"):
             # what a user class does when it sets its own per-market endowments in setup: new containers, same content
             self.asset_volumes = dict(self.asset_volumes)
             self.cash_amount = float(self.cash_amount)
+
+    def __len__(self):
+        return getattr(self, "_vf_len", 1)
 
     def _live(self, o, t):
         return (o.placed_at is not None and not o.is_canceled and o.volume > 0
@@ -449,11 +455,13 @@ class ProbeEvent(EventABC):
                 mk._cancel_order(Cancel(live[0]))
                 W.rec("event_cancelled", self.event_id, live[0].order_id)
         W.rec("hk", self.event_id, "session", True, session.session_start_time, None, session.session_id)
+        W.rec("hk_state", self.event_id, True, session.session_id, tuple((m.market_id, bool(m.is_running), m.get_time()) for m in simulator.markets))
         W.observe(("hook", "session", True))
 
     def hooked_after_session(self, simulator, session):
         W.rec("hk", self.event_id, "session", False, session.session_start_time + session.iteration_steps - 1, None,
               session.session_id)
+        W.rec("hk_state", self.event_id, False, session.session_id, tuple((m.market_id, bool(m.is_running), m.get_time()) for m in simulator.markets))
         W.observe(("hook", "session", False))
 
     def hooked_before_step_for_market(self, simulator, market):
